@@ -1285,13 +1285,17 @@ class Helper(object):
         if isinstance(n, ast.AsyncFunctionDef):
             return 'async'
         decos = [dotted(d) for d in n.decorator_list]
-        if any(d != 'staticmethod' for d in decos):
+        self.coroutine = bool(decos) and all(d in ('gen.coroutine', 'coroutine',
+                                                   'tornado.gen.coroutine') for d in decos)
+        if any(d != 'staticmethod' for d in decos) and not self.coroutine:
             return 'decorated'
         a = n.args
         if a.vararg or a.kwarg or a.kwonlyargs or a.posonlyargs:
             return 'star/kw-only parameters'
         for x in _own_nodes(n):
-            if isinstance(x, (ast.Yield, ast.YieldFrom, ast.Await)):
+            if isinstance(x, (ast.Yield, ast.YieldFrom, ast.Await)) and not self.coroutine:
+                return 'generator'
+            if isinstance(x, (ast.YieldFrom, ast.Await)):
                 return 'generator'
             if isinstance(x, (ast.Global, ast.Nonlocal)):
                 return 'global/nonlocal'
@@ -1323,6 +1327,8 @@ class Helper(object):
         if b and isinstance(b[0], ast.Expr) and isinstance(b[0].value, ast.Constant) and \
                 isinstance(b[0].value.value, str):
             b = b[1:]
+        if getattr(self, 'coroutine', False):
+            b = [_GenReturn().visit(copy.deepcopy(x)) for x in b]
         return b or [ast.Pass()]
 
     def loop_return_shape(self):
@@ -1352,6 +1358,21 @@ class Helper(object):
         if len(b) == 1 and isinstance(b[0], ast.Return) and b[0].value is not None:
             return b[0].value
         return None
+
+
+class _GenReturn(ast.NodeTransformer):
+    """raise gen.Return(E) in a coroutine is `return E`"""
+
+    def visit_Raise(self, node):
+        e = node.exc
+        if isinstance(e, ast.Call) and dotted(e.func) in ('gen.Return', 'Return',
+                                                          'tornado.gen.Return'):
+            val = e.args[0] if e.args else None
+            return _loc(ast.Return(value=val), node)
+        return node
+
+    def visit_FunctionDef(self, node):
+        return node
 
 
 class _Subst(ast.NodeTransformer):
@@ -1843,6 +1864,17 @@ class Inliner(object):
     def _inline_at(self, s, call, h, cond):
         """-> (prelude, [statements replacing s]) or None"""
         fnode, modname, clsname, names = self._cur
+        if getattr(h, 'coroutine', False):
+            # `yield self._helper(..)` / `x = yield self._helper(..)` in a coroutine: the
+            # helper's steps are steps of the caller
+            v = getattr(s, 'value', None)
+            if not (isinstance(s, (ast.Expr, ast.Assign)) and isinstance(v, ast.Yield) and
+                    v.value is call):
+                return None
+            if not any(dotted(d) in ('gen.coroutine', 'coroutine', 'tornado.gen.coroutine')
+                       for d in fnode.decorator_list):
+                return None
+            s.value = call          # from here on like a plain call statement
         self._inplace_target = None
         if isinstance(s, ast.Assign) and s.value is call and len(s.targets) == 1 and \
                 isinstance(s.targets[0], ast.Name):
